@@ -181,15 +181,14 @@ def _R_strategy(draw, nd, ns):
 
 
 @st.composite
-def problems(draw, cplx_ok=False, affine_ok=False, prior_ok=False, maxdim=5):
-    ns = draw(st.integers(1, maxdim))
-    nd = draw(st.integers(1, maxdim))
+def problems(draw, cplx=False, affine_ok=False, prior_ok=False, shape=None, maxdim=5):
+    ns, nd = shape if shape is not None else (draw(st.integers(1, maxdim)), draw(st.integers(1, maxdim)))
     R, _ = _R_strategy(draw, nd, ns)
     p = {"ns": ns, "nd": nd, "R": R, "Ri": None, "di": None, "c": None, "sv": None}
     p["nv"] = draw(st.one_of(S.vec(nd, S.dyadic_nz(0.25, 4, 4, signed=False)),
                              S.dyadic_nz(0.25, 4, 4, signed=False).map(lambda v: [v] * nd)))
     p["d"] = draw(S.vec(nd, S.dyadic(-4, 4, 8)))
-    if cplx_ok and draw(st.integers(0, 2)) == 0:
+    if cplx:
         p["Ri"], _ = _R_strategy(draw, nd, ns)
         p["di"] = draw(S.vec(nd, S.dyadic(-4, 4, 8)))
     if affine_ok and draw(st.integers(0, 3)) == 0:
@@ -204,6 +203,48 @@ def _domspec(draw, ns):
     if ns >= 2 and draw(st.booleans()):
         return draw(st.integers(1, ns - 1))
     return None
+
+
+# JAX sub-checks: eagerly dispatched primitives are compiled once per shape/dtype, which dominates the cost of a
+# case.  The recipes of the JAX sub-checks are therefore produced as a finite list (generated with Hypothesis from
+# the run seed, so still a pure function of VERIF_SEED) that is arranged round-robin over a fixed set of
+# (ns, nd, split, complex) variants: shard k of the runner (cases[k::nshards]) then sees one variant only.
+JAX_VARIANTS_QUICK = [(3, 3, None, False), (4, 2, 1, False), (2, 3, 1, True), (3, 2, None, True)]
+JAX_VARIANTS_MORE = [(5, 4, None, False), (1, 1, None, False), (2, 5, 1, False), (5, 5, 2, True)]
+
+
+def _generate(strategy, n, seed):
+    from hypothesis import HealthCheck, Phase, given, settings
+    from hypothesis import seed as hseed
+    out = []
+
+    @hseed(seed)
+    @settings(max_examples=n, database=None, deadline=None, derandomize=False, phases=[Phase.generate],
+              suppress_health_check=list(HealthCheck), print_blob=False)
+    @given(strategy)
+    def collect(rec):
+        out.append(rec)
+
+    collect()
+    return out
+
+
+def _jax_cases(recipe_strategy, tier, seed, per_variant, tag):
+    variants = JAX_VARIANTS_QUICK if tier == "quick" else JAX_VARIANTS_QUICK + JAX_VARIANTS_MORE
+    cols = []
+    for vi, v in enumerate(variants):
+        hs = int.from_bytes(f"{tag}:{seed}:{vi}".encode(), "little") % (2**63)
+        cols.append(_generate(recipe_strategy(v), per_variant, hs))
+    out = []
+    for i in range(max(len(c) for c in cols)):
+        for c in cols:
+            out.append(c[i % len(c)] if i >= len(c) else c[i])
+    return out
+
+
+def _jax_problem(draw, variant, **kw):
+    ns, nd, split, cplx = variant
+    return draw(problems(cplx=cplx, shape=(ns, nd), **kw)), split
 
 
 # ====================================================================================== nifty.re side
@@ -333,8 +374,8 @@ def check_re_wiener(rec):
 
 
 @st.composite
-def re_wiener_recipes(draw, tier):
-    p = draw(problems(cplx_ok=True, affine_ok=True))
+def re_wiener_recipes(draw, variant):
+    p, split = _jax_problem(draw, variant, affine_ok=True)
     lin = p["c"] is None and draw(st.integers(0, 3)) != 0
     pos = None
     if not lin or draw(st.integers(0, 2)) == 0:
@@ -343,7 +384,7 @@ def re_wiener_recipes(draw, tier):
     kw = "tight"
     if space == "signal" and p["Ri"] is None and draw(st.integers(0, 5)) == 0:
         kw = "default"
-    return {"p": p, "split": _domspec(draw, p["ns"]), "noise": draw(st.sampled_from(["both", "cov", "std"])),
+    return {"p": p, "split": split, "noise": draw(st.sampled_from(["both", "cov", "std"])),
             "space": space, "give_ncov": draw(st.booleans()), "jit": draw(st.integers(0, 3)) == 0, "lin": lin,
             "pos": pos, "kw": kw, "nsamp": draw(st.sampled_from([0, 1, 2])), "seed": draw(st.integers(0, 2**31 - 1)),
             "cov": draw(st.integers(0, 2)) != 0}
@@ -398,10 +439,10 @@ def check_re_okl(rec):
 
 
 @st.composite
-def re_okl_recipes(draw, tier):
-    p = draw(problems(cplx_ok=True))
+def re_okl_recipes(draw, variant):
+    p, split = _jax_problem(draw, variant)
     nsamp = draw(st.sampled_from([0, 0, 1, 2]))
-    return {"p": p, "split": _domspec(draw, p["ns"]), "noise": draw(st.sampled_from(["both", "cov"])),
+    return {"p": p, "split": split, "noise": draw(st.sampled_from(["both", "cov"])),
             "nsamp": nsamp, "nit": draw(st.sampled_from([1, 1, 2])),
             "mode": draw(st.sampled_from(["linear_resample", "linear_sample"])),
             "jit": draw(st.integers(0, 4)) == 0, "pos0": draw(S.vec(p["ns"], S.dyadic(-2, 2, 4))),
@@ -726,13 +767,13 @@ def mc_cases(tier, seed):
 
 _NT = "non-trivial = R rank-deficient (incl. zero) or non-square"
 SUBS = [
-    Sub(name="re_wiener", check=check_re_wiener, strategy=lambda tier: re_wiener_recipes(tier), jax=True,
-        quick=96, thorough=2400, shards=4, budget_quick=100.0,
+    Sub(name="re_wiener", check=check_re_wiener, jax=True, shards=4, budget_quick=100.0,
+        cases=lambda tier, seed: _jax_cases(re_wiener_recipes, tier, seed, 24 if tier == "quick" else 300, "w"),
         rule="nifty.re.wiener_filter_posterior in signal and data space (jit on/off, array or two-key Vector "
              "parameters, cov_inv/std_inv/both, position, model_is_linear=False incl. affine offset, default "
              "draw_linear_kwargs) vs dense mean; mirrored samples; tape-exact sample covariance; " + _NT),
-    Sub(name="re_optimize_kl", check=check_re_okl, strategy=lambda tier: re_okl_recipes(tier), jax=True,
-        quick=64, thorough=1600, shards=4, budget_quick=100.0,
+    Sub(name="re_optimize_kl", check=check_re_okl, jax=True, shards=4, budget_quick=100.0,
+        cases=lambda tier, seed: _jax_cases(re_okl_recipes, tier, seed, 16 if tier == "quick" else 200, "o"),
         rule="nifty.re.optimize_kl MAP / MGVI (1-2 iterations, linear_sample/linear_resample, jit on/off) vs dense "
              "mean; tape-exact covariance of the linear samples; " + _NT),
     Sub(name="cl_curvature", check=check_cl_curvature, strategy=lambda tier: cl_curv_recipes(tier),
